@@ -112,6 +112,62 @@ Definition calls_of (i : nat) (progs : list (nat * list call)) : list call :=
 Definition is_interleaving (s : list tcall) (progs : list (nat * list call)) : Prop :=
   forall i, proj i s = calls_of i progs.
 
+(** * Requests are not atomic: threads of adaptive programs
+
+    One WebDAV request is several OS calls, and what it does next depends on what
+    the earlier ones returned.  A THREAD is a root together with an adaptive program
+    of primitive calls anchored at that root; the scheduler may switch threads
+    between any two primitive calls.  [view] is what a thread can see of the whole
+    state: its own continuation and the subtree at its root; [lstep] is one
+    primitive call performed on that view alone.  ConcurrentProofs.threads_independent:
+    under any schedule every thread's view evolves exactly as if it were alone. *)
+Inductive prog (R : Type) : Type :=
+| PRet (r : R)
+| PCall (c : sem_t) (k : outc -> prog R).
+Arguments PRet {R}.
+Arguments PCall {R}.
+
+Definition thread (R : Type) : Type := (path * prog R)%type.
+
+Fixpoint set_nth {A} (n : nat) (x : A) (l : list A) : list A :=
+  match l, n with
+  | [], _ => []
+  | _ :: r, O => x :: r
+  | a :: r, S n' => a :: set_nth n' x r
+  end.
+
+(** thread [j] performs its next primitive call on the shared tree (nothing happens
+    when it has finished, does not exist, or its root does not exist) *)
+Definition gstep {R} (s : list (thread R) * node) (j : nat) : list (thread R) * node :=
+  match nth_error (fst s) j with
+  | Some (p, PCall c k) =>
+    match sub p (snd s) with
+    | Some m => (set_nth j (p, k (snd (c m))) (fst s), upd p (fun m' => fst (c m')) (snd s))
+    | None => s
+    end
+  | _ => s
+  end.
+
+Definition grun {R} (s : list (thread R) * node) (sched : list nat) : list (thread R) * node :=
+  fold_left gstep sched s.
+
+Definition view {R} (s : list (thread R) * node) (i : nat) : option (prog R * option node) :=
+  match nth_error (fst s) i with
+  | Some (p, pr) => Some (pr, sub p (snd s))
+  | None => None
+  end.
+
+Definition lstep {R} (v : prog R * option node) : prog R * option node :=
+  match v with
+  | (PCall c k, Some m) => (k (snd (c m)), Some (fst (c m)))
+  | _ => v
+  end.
+
+Definition thread_roots_disjoint {R} (ths : list (thread R)) : Prop :=
+  forall i j p q pr qr,
+    nth_error ths i = Some (p, pr) -> nth_error ths j = Some (q, qr) -> i <> j ->
+    disjoint p q = true.
+
 (** * Concrete calls (instances of [sem_t]): the operations of webdav.Client on
     paths relative to the root, with the answers webdav.Handler{LocalFileSystem}
     gives (server.go, fs_local.go, internal/server.go), in the order in which the Go
